@@ -8,6 +8,7 @@ import (
 	"log"
 	"log/slog"
 	"net/http"
+	"strings"
 	"testing"
 
 	"github.com/issue9/mux/v9"
@@ -40,7 +41,8 @@ type Case struct {
 }
 
 var (
-	paths   = []string{"/a", "/a", "/b/7", "/b/xyz", "/nope", "*", ""}
+	// ... and two paths of a length beyond the usual (a parameter value and an unknown path of 5000 and 70000 bytes)
+	paths   = []string{"/a", "/a", "/b/7", "/b/xyz", "/nope", "*", "", "/a", "/b/7", "/nope", "/b/" + strings.Repeat("x", 5000), "/nope/" + strings.Repeat("n", 70000)}
 	methods = []string{"GET", "GET", "HEAD", "POST", "OPTIONS", "PUT", "TRACE", "DELETE"}
 )
 
